@@ -224,6 +224,61 @@ pub fn op_fragdecr(args: &[&str]) -> String {
     )
 }
 
+/// `decrt <k> <Kind> <sync|fsm> <sink kind> <blob> <bs> <ranges> <sources> <stream> <fill>`: as `decr`, but the
+/// k-th read call on the stream reader fails ONCE with an io error of the given kind (a transient failure: the
+/// reader would carry on if asked again). Observed: terminal, target / outboard digests, and per chunk of the target
+/// and per slot of the outboard whether it is untouched (`u`), holds the true bytes / pair (`t`) or anything else (`x`)
+pub fn op_decrt(args: &[&str]) -> String {
+    let k: usize = args[0].parse().unwrap();
+    let fkind = kind_of(args[1]);
+    let fl = args[2];
+    let kind = args[3];
+    let data = blob(args[4]);
+    let bs = bs_of(args[5]);
+    let ranges = ranges_arg(args[6]);
+    let (stream, _digs) = build_stream(args[7], args[8]);
+    let fill: u8 = args[9].parse().unwrap();
+    let root = blake3::hash(&data);
+    let tree = BaoTree::new(data.len() as u64, bs);
+    let ob0 = vec![0xAAu8; tree.outboard_size() as usize];
+    let mut target = vec![fill; data.len()];
+    let c = ctl(Some((k, fkind)));
+    let (r, ob) = match fl {
+        "sync" => with_sync_store!(kind, root, tree, ob0, |o| sync::decode_ranges(FRead(&stream[..], c.clone()), &ranges, &mut target, &mut o)),
+        _ => {
+            let mut t = BytesMut::from(&target[..]);
+            let res = with_fsm_store!(kind, root, tree, ob0, |o| block_on(fsm::decode_ranges(
+                FStreamReader(&stream[..], c.clone()),
+                ranges.clone(),
+                &mut t,
+                &mut o
+            )));
+            target = t.to_vec();
+            res
+        }
+    };
+    let term = match r {
+        Ok(()) => "Done".to_string(),
+        Err(e) => dec_err(&e),
+    };
+    // the true outboard in the sink's order, from the creation code path
+    let true_ob: Vec<u8> = if kind.starts_with("post") { PostOrderMemOutboard::create(&data, bs).data } else { PreOrderMemOutboard::create(&data, bs).data };
+    let obf: String = if kind == "empty" {
+        "-".into()
+    } else {
+        ob.chunks(64)
+            .zip(true_ob.chunks(64))
+            .map(|(a, t)| if a.iter().all(|x| *x == 0xAA) { 'u' } else if a == t { 't' } else { 'x' })
+            .collect()
+    };
+    let tf: String = target
+        .chunks(1024)
+        .zip(data.chunks(1024))
+        .map(|(a, t)| if a == t { 't' } else if a.iter().all(|x| *x == fill) { 'u' } else { 'x' })
+        .collect();
+    format!("{} {} {} ob={} t={}", term, dig(&target), dig(&ob), if obf.is_empty() { "-".into() } else { obf }, if tf.is_empty() { "-".into() } else { tf })
+}
+
 /// `fragob <sync|fsm> <cuts> <blob> <bs> <pre|post>`: outboard creation from a fragmented data source
 pub fn op_fragob(args: &[&str]) -> String {
     let cuts = parse_cuts(args[1]);
@@ -590,8 +645,16 @@ pub fn op_faults(args: &[&str]) -> String {
             let mut toks = Vec::new();
             // "Eof": the data source / stream simply ends at this read (a short read, not an error)
             let eof_applies = (*obj == "data" || *obj == "r") && name != "mixed";
-            let kinds: &[&str] = if eof_applies { &["Other", "UnexpectedEof", "ConnectionReset", "WriteZero", "Eof"] } else { &["Other", "UnexpectedEof", "ConnectionReset", "WriteZero"] };
-            for &kind in kinds {
+            let mut kinds: Vec<&str> = vec!["Other", "UnexpectedEof", "ConnectionReset", "WriteZero"];
+            if eof_applies {
+                kinds.push("Eof");
+            }
+            // the async code has no retry loops: `Interrupted` is a failure like any other there (the std loops of the
+            // sync code retry it by contract, so it is not a failure of a sync operation)
+            if name.ends_with("-fsm") || name == "mixed" {
+                kinds.push("Interrupted");
+            }
+            for &kind in &kinds {
                 let spec_s = spec.to_string();
                 let obj_s = obj.to_string();
                 let kk = kind_of(kind);
